@@ -25,7 +25,7 @@ func init() {
 	register(&explore.Prop{
 		ID: "C09", Level: levelMC, Explorer: "E4 schedule explorer (cooperative scheduler + preemption-bounded DFS + happens-before monitor) + deterministic nesting sweep",
 		Instr: true,
-		Rule: "instrumented build (scheduling points inserted automatically before every statement touching package-level state or a Segment/footer object that some thread writes (reads of never-written locations commute; the written set is computed as a fixpoint at run time), and at every object seen from two threads, sync primitives replaced by scheduler-aware shims); shared segment = 130-document two-block segment loaded fresh for every execution, in cold / warm-FST / warm-stored-block variants; thread bodies from a menu of 11 operations chosen to collide (stored visit in block 0 / block 1 / same block, first Dictionary of the same / another field, postings walk, two doc-value readers, DocsMatchingTerms, WriteTo, Merge([S,S'])); every unordered pair at preemption bound 2 (pairs with the merge: bound 1 quick / 2 thorough), reader triples at bound 1 (thorough: bound 2), iterative bounding 0,1,2; plus every nesting of a menu operation inside every callback of a stored-field / doc-value visit; " +
+		Rule: "instrumented build (scheduling points inserted automatically before every statement touching package-level state or a Segment/footer object that some thread writes (reads of never-written locations commute; the written set is computed as a fixpoint at run time), and at every object seen from two threads, sync primitives replaced by scheduler-aware shims); shared segment = 130-document two-block segment loaded fresh for every execution, in cold / warm-FST / warm-stored-block / after-an-out-of-range-visit variants; thread bodies from a menu of 12 operations chosen to collide (stored visit in block 0 / block 1 / same block / out of range, first Dictionary of the same / another field, postings walk, two doc-value readers, DocsMatchingTerms, WriteTo, Merge([S,S'])); every unordered pair at preemption bound 2 (pairs with the merge: bound 1 quick / 2 thorough), reader triples at bound 1 (thorough: bound 2), iterative bounding 0,1,2; plus every nesting of a menu operation inside every callback of a stored-field / doc-value visit; " +
 			"oracle: each thread's observation equals its solo observation, no panic, no deadlock, no happens-before race on any recorded (object, field), segment still answers as before; distinct = schedules; non-trivial = schedules with >=1 preemption",
 		Assumptions: []string{"statement-level atomicity; races below statement granularity and inside roaring/vellum/zstd are outside the scheduler's model (the thorough tier adds a free-running -race pass as supplementary, non-exhaustive evidence)", "preemption bound 2, <=3 threads", "instrumenter self-check: the repository's 31 tests pass on the instrumented overlay (bin/setup.sh)"},
 		Budget:      qBudget, Run: runC09,
@@ -135,6 +135,7 @@ func c09Menu(other segment.Segment) []c09Op {
 			}
 			return bm.String()
 		}},
+		stored(135), // out of range: a legal no-op read that still takes a per-call context from the pool
 		{"writeTo", func(seg segment.Segment) string {
 			var w sliceWriter
 			n, err := seg.WriteTo(&w, nil)
@@ -200,7 +201,8 @@ func runC09(c *explore.Ctx) {
 
 	// ---- scenarios ----
 	var scs []c09Scenario
-	warmVariants := [][]int{nil, {3}, {1}} // cold, warm FST cache of field a, warm stored block 1
+	oorOp := writeOp - 1
+	warmVariants := [][]int{nil, {3}, {1}, {oorOp}} // cold, warm FST cache of field a, warm stored block 1, after an out-of-range visit
 	pairBound, mergeBound, tripleBound := 2, 1, 1
 	if c.Thorough() {
 		mergeBound, tripleBound = 2, 2
@@ -219,7 +221,7 @@ func runC09(c *explore.Ctx) {
 			}
 		}
 	}
-	readers := []int{0, 1, 3, 4, 5, 6, 8}
+	readers := []int{0, 1, 3, 4, 5, 6, 8, oorOp}
 	for a := 0; a < len(readers); a++ {
 		for b := a; b < len(readers); b++ {
 			for d := b; d < len(readers); d++ {
@@ -540,36 +542,47 @@ func nestingSweep(c *explore.Ctx, menu []c09Op, solo []string, fresh func() segm
 		}
 		return b.String()
 	}})
+	// the pools are deterministic (LIFO) here, so that an object handed out twice is handed out twice
+	// on every run; variant 1 makes an out-of-range visit first (it also takes a context from the pool)
+	verifrt.DetPools = true
+	defer func() { verifrt.DetPools = false; verifrt.ResetPools() }()
 	var idx int64
 	for _, o := range outers {
+		verifrt.ResetPools()
 		want := guardStr(func() string { return o.run(fresh(), -1, func() {}) })
 		for at := 0; at < 3; at++ {
 			for ii, in := range menu {
-				my := idx
-				idx++
-				scope := "NEST"
-				if !c.MineIdx(scope, my) {
-					continue
-				}
-				c.Eval()
-				c.Nontrivial()
-				seg := fresh()
-				var innerGot string
-				ran := false
-				got := guardStr(func() string {
-					return o.run(seg, at, func() { ran = true; innerGot = in.run(seg) })
-				})
-				if !ran {
-					continue
-				}
-				cas := fmt.Sprintf("NEST #%d: %s with %s called from inside its callback #%d", my, o.name, in.name, at)
-				c.Sample(my, func() string { return cas })
-				if got != want {
-					c.Violate(scope, my, "C09/nesting/outer-wrong/"+opKind(o.name), fmt.Sprintf("outer visit delivered %.300q, without nesting %.300q", got, want), cas)
-					continue
-				}
-				if innerGot != solo[ii] {
-					c.Violate(scope, my, "C09/nesting/inner-wrong/"+opKind(in.name), fmt.Sprintf("inner %s observed %.300q, alone %.300q", in.name, innerGot, solo[ii]), cas)
+				for variant := 0; variant < 2; variant++ {
+					my := idx
+					idx++
+					scope := "NEST"
+					if !c.MineIdx(scope, my) {
+						continue
+					}
+					c.Eval()
+					c.Nontrivial()
+					seg := fresh()
+					verifrt.ResetPools()
+					if variant == 1 {
+						seg.VisitStoredFields(1<<20, func(string, []byte) bool { return true })
+					}
+					var innerGot string
+					ran := false
+					got := guardStr(func() string {
+						return o.run(seg, at, func() { ran = true; innerGot = in.run(seg) })
+					})
+					if !ran {
+						continue
+					}
+					cas := fmt.Sprintf("NEST #%d: %s with %s called from inside its callback #%d (variant %d: 1 = after an out-of-range visit)", my, o.name, in.name, at, variant)
+					c.Sample(my, func() string { return cas })
+					if got != want {
+						c.Violate(scope, my, "C09/nesting/outer-wrong/"+opKind(o.name), fmt.Sprintf("outer visit delivered %.300q, without nesting %.300q", got, want), cas)
+						continue
+					}
+					if innerGot != solo[ii] {
+						c.Violate(scope, my, "C09/nesting/inner-wrong/"+opKind(in.name), fmt.Sprintf("inner %s observed %.300q, alone %.300q", in.name, innerGot, solo[ii]), cas)
+					}
 				}
 			}
 		}
